@@ -453,6 +453,24 @@ def huge_int_pow(rng, cls):
     _ = prog
 
 
+def nested_from_re(rng, cls):
+    """from_re of a nested class takes a Dual64: all of it must arrive (value and derivative)"""
+    a, b = rnd_part(rng), rnd_part(rng)
+    ACC.observe("from_re(dual)|%s" % cls)
+    try:
+        got = getattr(nd, cls).from_re(nd.Dual64(a, b))
+    except BaseException as e:  # noqa
+        _reraise_control(e)
+        ACC.violate("from_re:%s:raised" % cls, "%s.from_re(Dual64) raised %r" % (cls, e), {"class": cls, "re": [a, b]})
+        return
+    want = make_scalar(cls, [a, b] + [0.0] * (NPARTS[cls] - 2))
+    g, w = [], []
+    flat_obj(got, g, [])
+    flat_obj(want, w, [])
+    if len(g) != len(w) or any(not same(p, q) for p, q in zip(g, w)) or repr(got) != repr(want):
+        ACC.violate("from_re:%s" % cls, "%s.from_re(Dual64(%r, %r)) is %r, a constant with that real part is %r" % (cls, a, b, got, want), {"class": cls, "re": [a, b]})
+
+
 def numpy_ops(rng, cls):
     """dual op ndarray (and ndarray op dual): float arrays and object arrays of every shape and memory
     layout must give the element-wise scalar operation, as a new array, leaving the operand untouched"""
@@ -787,6 +805,8 @@ def main():
             for cls in NPARTS:
                 numpy_ops(rng, cls)
                 huge_int_pow(rng, cls)
+                if cls in ("HyperDualDual64", "Dual2Dual64", "Dual3Dual64"):
+                    nested_from_re(rng, cls)
         for d in drivers:
             run_driver(rng, d)
             if d in ("gradient", "hessian", "jacobian", "partial_hessian", "third_partial_derivative_vec"):
